@@ -405,9 +405,7 @@ func runC12(r *evid.Run) {
 		// the generated hardware of the requested machine: the values each external output shows, in order
 		// (a value written twice in a row shows once)
 		usesMemory := strings.Contains(src, "addmul(")
-		// (a program that writes nothing has nothing to show; its processor has output ports and no
-		// instruction that drives them, which the hardware generator renders with undeclared signals)
-		if (hdlCompared < hdlBudget || usesMemory) && len(g.outs) > 0 {
+		if hdlCompared < hdlBudget || usesMemory {
 			shown, herr := hdlOutputChanges(res.bmJSON, 60*nInstr+300)
 			want := [][]uint64{{0}, {0}}
 			for _, ov := range g.outs {
